@@ -265,7 +265,9 @@ func (p *pipeline) settle(want map[triple]bool, h0, k0 uint64) (string, bool) {
 			// polling mode: two complete polls after the change, KV watcher parked
 			quiet = h >= h0+2 && p.fc.KVQuiesced(kvPath)
 		} else {
-			quiet = p.fc.Quiesced(kvPath)
+			// parked on the current state, or at least given it (a watcher that keeps asking
+			// without ever parking has still been told)
+			quiet = p.fc.Quiesced(kvPath) || p.fc.Seen(kvPath)
 		}
 		d := diff(want, actual(route.GetTable()))
 		if quiet {
@@ -303,7 +305,7 @@ func (p *pipeline) settleAbsent(gone map[triple]bool, h0 uint64) (string, bool) 
 			h, _ := p.fc.Served()
 			quiet = h >= h0+2 && p.fc.KVQuiesced(kvPath)
 		} else {
-			quiet = p.fc.Quiesced(kvPath)
+			quiet = p.fc.Quiesced(kvPath) || p.fc.Seen(kvPath)
 		}
 		if quiet {
 			sawQuiet = true
@@ -327,7 +329,7 @@ func (p *pipeline) settleAbsent(gone map[triple]bool, h0 uint64) (string, bool) 
 
 // ---- generators
 
-var tagChoices = []string{"urlprefix-/a", "urlprefix-/b", "urlprefix-foo.com/", "urlprefix-Foo.com/x", "urlprefix-/secure proto=https", "urlprefix-:7001 proto=tcp", "urlprefix-/w weight=0.5",
+var tagChoices = []string{"urlprefix-/a", "urlprefix-/A", "urlprefix-/b", "urlprefix-foo.com/", "urlprefix-Foo.com/x", "urlprefix-/secure proto=https", "urlprefix-:7001 proto=tcp", "urlprefix-/w weight=0.5",
 	// a route that asks fabio to register an alias for it: with this pipeline's configuration (no usable
 	// registry.consul.register.addr) that registration fails, which is no reason not to route
 	"urlprefix-/al register=myalias"}
@@ -438,8 +440,16 @@ func runHistory(t *rapid.T, p *pipeline, withOdd bool) {
 			before[k] = p.healthy(w, in)
 		}
 		var op string
-		kind := rapid.IntRange(0, 12).Draw(t, "op")
+		kind := rapid.IntRange(0, 13).Draw(t, "op")
 		keys := sortedKeys(w.inst)
+		if kind == 13 {
+			// the Consul servers are restored from a snapshot: the indexes of its queries go back.
+			// Nothing in the registry changed; what changes afterwards must still be followed.
+			fc.Rewind()
+			check("consul indexes go backwards (snapshot restore)")
+			hx.Class("history-with-index-going-backwards")
+			continue
+		}
 		if kind == 12 {
 			// fault injection: the catalog lookup of a service fails at the very rebuild in
 			// which one of its instances turns unhealthy.  Only the safety half of the
@@ -513,8 +523,23 @@ func runHistory(t *rapid.T, p *pipeline, withOdd bool) {
 			if p.poll > 0 || rapid.Bool().Draw(t, "heal-by-wait-timeout") {
 				// nothing changes in the registry: the next poll, or the blocking query
 				// returning because its wait time is over, reports the same index
-				fc.WakeHealth()
-				check("catalog lookups work again (next health query returns with the same index)")
+				// (blocking queries return whenever their wait time is over: the fake lets that
+				// happen every 150 ms while the table is given time to settle)
+				func() {
+					stopWake := make(chan struct{})
+					defer close(stopWake)
+					go func() {
+						for {
+							fc.WakeHealth()
+							select {
+							case <-stopWake:
+								return
+							case <-time.After(150 * time.Millisecond):
+							}
+						}
+					}()
+					check("catalog lookups work again (health queries keep returning with the same index)")
+				}()
 				hx.Class("catalog-fault-healed-without-an-index-change")
 			} else {
 				fc.Touch()
